@@ -51,6 +51,12 @@ type genConfig struct {
 	// TopLevelList makes program() also keep the top-level statements separately
 	// (fragment cutting, C10); no top-level return is generated before the end.
 	NoTry bool
+	// CallMark emits call sites of script functions as placeholders that are
+	// later rendered either as in-script calls or as calls through the host
+	// (Invoker): the two variants of one script (C14).
+	CallMark bool
+	// NoTrace: never log resolved positions (they legitimately differ between the variants of C14).
+	NoTrace bool
 	// Share adds statements that exercise structures shared between VMs of one
 	// Bytecode: errors thrown in module files and resolved with trace(), writes
 	// to builtin-module values, calls through pooled child VMs (C08).
@@ -357,8 +363,16 @@ func (g *gen) callOf(f gvar, d int) string {
 			args = append(args, "..."+g.expr(tArr, d-1))
 		}
 	}
+	if g.cfg.CallMark && !g.inModule && !strings.Contains(name, ".") && !strings.Contains(strings.Join(args, ","), "...") && g.t.Bool(2, 3) {
+		g.features["call"] = true
+		if g.t.Bool(1, 4) {
+			// repeated invocation on one handle
+			return "\x04" + fmt.Sprint(1+g.t.Draw(3)) + "\x02" + name + "\x02" + strings.Join(args, ", ") + "\x03"
+		}
+		return "\x01" + name + "\x02" + strings.Join(args, ", ") + "\x03"
+	}
 	// calling through the host (Invoker) instead of directly
-	if g.cfg.Hosts && !g.inModule && !strings.Contains(name, ".") && g.t.Bool(1, 4) && !strings.HasPrefix(strings.Join(args, ","), "...") && !strings.Contains(strings.Join(args, ","), "...") {
+	if g.cfg.Hosts && !g.cfg.CallMark && !g.inModule && !strings.Contains(name, ".") && g.t.Bool(1, 4) && !strings.HasPrefix(strings.Join(args, ","), "...") && !strings.Contains(strings.Join(args, ","), "...") {
 		g.ncall++
 		g.features["call"] = true
 		return "call(" + strings.Join(append([]string{name}, args...), ", ") + ")"
@@ -395,7 +409,8 @@ func (g *gen) funcLit(lvl int, recursiveName string) (string, gvar) {
 	for i := 0; i < sig.arity; i++ {
 		p := g.fresh("p")
 		ps = append(ps, p)
-		g.declare(gvar{name: p, t: tInt})
+		// the first parameter of a recursive function is its strictly decreasing depth: never assigned
+		g.declare(gvar{name: p, t: tInt, konst: recursiveName != "" && i == 0})
 	}
 	if sig.variadic {
 		p := g.fresh("va")
@@ -458,6 +473,9 @@ func (g *gen) stmt(lvl int) string {
 	w := []int{6, 5, 5, 3, 3, 2, 3, 3, 2, 2, 2, 1, 2}
 	if deep {
 		w = []int{6, 5, 5, 0, 0, 0, 0, 0, 2, 0, 2, 1, 0}
+	}
+	if g.cfg.CallMark && !deep {
+		w[6], w[10] = 7, 7
 	}
 	if g.cfg.NoTry {
 		w[7] = 0
@@ -577,7 +595,7 @@ func (g *gen) stmt(lvl int) string {
 			if !g.inModule {
 				sb.WriteString(ind(lvl+1) + "log(" + e + ")\n")
 			}
-			if g.cfg.Hosts && !g.inModule && g.t.Bool(1, 2) {
+			if g.cfg.Hosts && !g.cfg.NoTrace && !g.inModule && g.t.Bool(1, 2) {
 				sb.WriteString(ind(lvl+1) + "log(trace(" + e + "))\n")
 			}
 			sb.WriteString(g.block(g.t.Draw(2), lvl+1))
@@ -754,6 +772,12 @@ func (g *gen) program() (string, []srcModule) {
 		}
 		g.Top = append(g.Top, g.stmt(0))
 	}
+	if g.cfg.CallMark && !g.features["call"] {
+		// make sure every CallMark script has marked call sites
+		g.Top = append(g.Top, "fz := func(a, ...b) { zc := a; return func(x) { zc += x + len(b); return zc } }\n"+
+			"fy := \x01fz\x02"+g.expr(tInt, 1)+", 2\x03\n"+
+			"log(\x01fy\x023\x03, \x042\x02fy\x02"+g.expr(tInt, 1)+"\x03)\n")
+	}
 	g.Top = append(g.Top, g.probe())
 	return sim.Prelude + strings.Join(g.Top, ""), g.mods
 }
@@ -768,4 +792,75 @@ func (g *gen) probe() string {
 		names = append(names, v.name)
 	}
 	return "return [" + strings.Join(names, ", ") + "]\n"
+}
+
+// renderCalls resolves the call placeholders of a CallMark script: viaHost
+// false renders in-script calls, true renders calls through the Invoker.
+func renderCalls(src string, viaHost bool) string {
+	var sb strings.Builder
+	for i := 0; i < len(src); i++ {
+		c := src[i]
+		if c != 1 && c != 4 {
+			sb.WriteByte(c)
+			continue
+		}
+		// find the matching end marker (placeholders nest inside argument lists)
+		depth, j := 0, i+1
+		for ; j < len(src); j++ {
+			if src[j] == 1 || src[j] == 4 {
+				depth++
+			} else if src[j] == 3 {
+				if depth == 0 {
+					break
+				}
+				depth--
+			}
+		}
+		inner := src[i+1 : j]
+		// split at top-level \x02
+		var parts []string
+		d, last := 0, 0
+		for k := 0; k < len(inner); k++ {
+			switch inner[k] {
+			case 1, 4:
+				d++
+			case 3:
+				d--
+			case 2:
+				if d == 0 {
+					parts = append(parts, inner[last:k])
+					last = k + 1
+				}
+			}
+		}
+		parts = append(parts, inner[last:])
+		for k := range parts {
+			parts[k] = renderCalls(parts[k], viaHost)
+		}
+		if c == 1 {
+			name, args := parts[0], parts[1]
+			if viaHost {
+				if args == "" {
+					sb.WriteString("call(" + name + ")")
+				} else {
+					sb.WriteString("call(" + name + ", " + args + ")")
+				}
+			} else {
+				sb.WriteString(name + "(" + args + ")")
+			}
+		} else {
+			n, name, args := parts[0], parts[1], parts[2]
+			if viaHost {
+				if args == "" {
+					sb.WriteString("callrep(" + name + ", " + n + ")")
+				} else {
+					sb.WriteString("callrep(" + name + ", " + n + ", " + args + ")")
+				}
+			} else {
+				sb.WriteString("(func(...cra) { crr := undefined; for cri := 0; cri < " + n + "; cri++ { crr = " + name + "(...cra) }; return crr })(" + args + ")")
+			}
+		}
+		i = j
+	}
+	return sb.String()
 }
